@@ -311,3 +311,51 @@ pub fn run_unsub_race(body: &[Sexp]) -> String {
   }
   "ok".into()
 }
+
+/// (handshake KIND ROUNDS): observe_on_threads / delay_threads on a thread pool; the subscriber's callback for the first item
+/// waits (no re-entry into the pipeline: a plain hand-shake) until the producer's second next() has returned.  The producer
+/// must not be held up by a delivery that is still running: every call returns.
+pub fn run_handshake(body: &[Sexp]) -> String {
+  let kind = body[0].atom().to_string();
+  let rounds = body[1].usize();
+  // the crate is built without its `timer` feature: delay asks this function for its timers (a zero delay is due at once)
+  crate::timed::install_timer();
+  let pool = FuturesThreadPoolScheduler::new().unwrap();
+  for _ in 0..rounds {
+    let subject: SubjectThreads<i32, ()> = SubjectThreads::default();
+    let (returned_tx, returned_rx) = std::sync::mpsc::channel::<()>();
+    let returned_rx = Mutex::new(returned_rx);
+    let (in_cb_tx, in_cb_rx) = std::sync::mpsc::channel::<()>();
+    let in_cb_tx = Mutex::new(in_cb_tx);
+    let stuck = Arc::new(AtomicBool::new(false));
+    let s2 = stuck.clone();
+    let cb = move |v: i32| {
+      if v == 1 {
+        let _ = in_cb_tx.lock().unwrap().send(());
+        if returned_rx.lock().unwrap().recv_timeout(Duration::from_secs(3)).is_err() {
+          s2.store(true, Ordering::SeqCst);
+        }
+      }
+    };
+    let keep: Box<dyn std::any::Any> = match kind.as_str() {
+      "observe_on" => Box::new(subject.clone().observe_on_threads(pool.clone()).on_error(|_: ()| {}).subscribe(cb)),
+      "delay" => Box::new(subject.clone().delay_threads(Duration::from_millis(0), pool.clone()).on_error(|_: ()| {}).subscribe(cb)),
+      k => panic!("bad handshake kind {k}"),
+    };
+    let mut p = subject.clone();
+    let producer = std::thread::spawn(move || {
+      p.next(1);
+      // the delivery of item 1 is running on a pool thread now
+      let _ = in_cb_rx.recv_timeout(Duration::from_secs(5));
+      p.next(2);
+      let _ = returned_tx.send(());
+    });
+    let _ = producer.join();
+    std::thread::sleep(Duration::from_millis(2));
+    std::mem::forget(keep);
+    if stuck.load(Ordering::SeqCst) {
+      return "next() did not return while a delivery scheduled earlier was still running on a pool thread".into();
+    }
+  }
+  "ok".into()
+}
